@@ -230,7 +230,7 @@ fn run_ops(case: &Case, world: &World) -> Result<Stats, Fail> {
                 }
                 stats.shapes |= 1 << ((s.is_empty() as u32) * 2 + (s.capacity() > s.len()) as u32);
                 let model = s.clone();
-                let cow: Cow<'static, str> = if *via_std { Cow::from(std::borrow::Cow::<'static, str>::Owned(s)) } else { Cow::from_owned(s) };
+                let cow: Cow<'static, str> = if *via_std { Cow::from(std::borrow::Cow::<'static, str>::Owned(s)) } else if *extra_cap == 7 { Cow::from(s) /* From<String> */ } else { Cow::from_owned(s) };
                 lineage += 1;
                 pool.push((Val::S { cow, model, origin: Origin::Owned }, lineage));
             }
@@ -255,7 +255,7 @@ fn run_ops(case: &Case, world: &World) -> Result<Stats, Fail> {
                 }
                 let model = v.iter().map(|e| e.id).collect();
                 lineage += 1;
-                pool.push((Val::L { cow: Cow::from_owned(v), model, origin: Origin::Owned }, lineage));
+                pool.push((Val::L { cow: if *extra_cap == 5 { Cow::from(v) /* From<Vec<T>> */ } else { Cow::from_owned(v) }, model, origin: Origin::Owned }, lineage));
             }
             Op::SliceShared(i) => {
                 let a = world.arcs_slice[*i].clone();
